@@ -376,9 +376,15 @@ func c19(c *h.Ctx) {
 	srv := httptest.NewServer(http.HandlerFunc(c19serve))
 	defer srv.Close()
 	pid := os.Getpid()
+	nset := 0
 	set := func(cs c19case) {
 		c19mu.Lock()
 		c19cur = cs
+		// the Server header is configuration (an exported variable): it is re-configured between requests now
+		// and then, and every response must carry the value configured when it was served
+		if nset++; nset%7 == 3 {
+			oh.Server = fmt.Sprintf("OryxVerif/%d", 1+nset/7%5)
+		}
 		c19mu.Unlock()
 	}
 	callbacks := []string{"cb", "jQuery123_456", "a.b.c", "f", "x(y", "é", `q"`}
